@@ -28,12 +28,13 @@ Theorem C01_posix_complements_bytes : forall name txt rs c,
 Proof. exact posix_neg_rows_a. Qed.
 Print Assumptions C01_posix_complements_bytes.
 
-(* ---- the flat fragment (literals, escaped characters, `?`, `*`), end to end ------------------------------------------
+(* ---- the flat fragment (literals, escaped characters, `?`, `*`, simple brackets `[abc]`/`[!abc]`), end to end ------------------------------------------
    For every well-formed token list, every flag word of fnmatch mode under Unix rules (DOTMATCH on or off, any case
    flags) and str/bytes: the text the parser model produces is the printed form of a regular expression [rs], and under
    the formal semantics of that regex fragment (C01Flat.M / Mseq: concatenation, lazy star, DOTALL dot, one-character
    classes, negative/positive look-ahead) [rs] fully matches a name exactly when the documented meaning
-   (C01Flat.Den) holds: `?` = any one character, `*` = any run of characters, except that a leading `.` of the name
+   (C01Flat.Den) holds: `?` = any one character, `[..]` = one member (`[!..]` = one non-member) of the set, `*` = any run of
+   characters, except that a leading `.` of the name
    is matched by a written `.` only (unless DOTMATCH) and a pattern starting with `*` needs a non-empty name. *)
 From WC Require WcParse.
 From WC.Gen Require Consts FlagFuns.
